@@ -50,13 +50,20 @@ extern "C" void harness(void)
 {
 	env_init(0, 2);
 	decryptFails = nondet_bool();
-	for (int i = 0; i < NOBJ; i++) env.obj[i].havoc(2);
+	for (int i = 0; i < NOBJ; i++)
+	{	// shape of the objects is concrete (which attributes exist, byte-string lengths), every VALUE is symbolic
+		SymObject& o = env.obj[i]; o.valid = nondet_bool(); o.destroyed = false; o.setOk = true;
+		o.has_PRIVATE = true; o.b_PRIVATE = nondet_bool(); o.has_TOKEN = true; o.b_TOKEN = nondet_bool(); o.has_CLASS = true; o.u_CLASS = nondet_ulong();
+		o.has_LABEL = true; unsigned char lb = nondet_uchar();
+		if (o.b_PRIVATE) { o.s_LABEL.resize(2); o.s_LABEL[0] = nondet_bool() ? (unsigned char)ENC_TAG : (unsigned char)0x11; o.s_LABEL[1] = lb; } else { o.s_LABEL.resize(1); o.s_LABEL[0] = lb; }
+		o.has_ID = (i == 0);  if (o.has_ID) o.s_ID.resize(0);          // object 0 has an EMPTY CKA_ID, object 1 has none
+	}
 	SoftHSM* hsm = env.hsm; Session* s = env.session;
-	T t[2]; static CK_ATTRIBUTE tmpl[2]; CK_ULONG cnt = nondet_uchar(); vassume(cnt <= TMAX);
+	T t[2]; static CK_ATTRIBUTE tmpl[2]; CK_ULONG cnt = TCNT;
 	for (int i = 0; i < 2; i++)
 	{
-		unsigned sel = nondet_uchar() % 6; t[i].type = sel == 0 ? CKA_TOKEN : sel == 1 ? CKA_CLASS : sel == 2 ? CKA_LABEL : sel == 3 ? CKA_ID : sel == 4 ? CKA_PRIVATE : nondet_ulong();
-		t[i].len = nondet_uchar(); vassume(t[i].len <= 8); for (int k = 0; k < 8; k++) t[i].v[k] = nondet_uchar();
+		t[i].type = i == 0 ? (CK_ATTRIBUTE_TYPE)T0 : (CK_ATTRIBUTE_TYPE)T1;   // template attribute types are concrete per obligation
+		t[i].len = nondet_uchar(); vassume(t[i].len == 0 || t[i].len == 1 || t[i].len == 2 || t[i].len == 8); for (int k = 0; k < 8; k++) t[i].v[k] = nondet_uchar();
 		tmpl[i].type = t[i].type; tmpl[i].ulValueLen = t[i].len; tmpl[i].pValue = t[i].v;
 	}
 	CK_SESSION_HANDLE hS = nondet_bool() ? env.hSession : nondet_ulong();
@@ -82,7 +89,7 @@ extern "C" void harness(void)
 			CK_OBJECT_HANDLE h = env.hm->getObjectHandle(&env.obj[i]);
 			bool captured = h != CK_INVALID_HANDLE && f->_handles.count(h) == 1;
 			vassert(captured == expect[i]);                               // sound and complete
-			if (captured) { vassert(env.hm->getObject(h) == &env.obj[i]); vreach(); }
+			if (captured) { vassert(env.hm->getObject(h) == &env.obj[i]); if (SHAPE_CAN_MATCH) vreach(); }
 			if (!expect[i] && env.obj[i].getBooleanValue(CKA_PRIVATE, true) && !userIn) vassert(h == CK_INVALID_HANDLE);   // C01: not even a handle
 		}
 		vassert(f->_handles.size() == (unsigned)(expect[0] + expect[1]));
@@ -93,14 +100,14 @@ extern "C" void harness(void)
 		for (CK_ULONG k = 0; k < 3; k++) if (k >= n) vassert(got[k] == 0xAAAA);
 		for (CK_ULONG k = 0; k < 2; k++) if (k < n) vassert(f->_handles.count(got[k]) == 0 && (got[k] == env.hm->getObjectHandle(&env.obj[0]) || (NOBJ > 1 && got[k] == env.hm->getObjectHandle(&env.obj[1]))));
 		if (n == 2) vassert(got[0] != got[1]);
-		if (max == 0 && before) vreach();
+		if (max == 0 && before) { if (SHAPE_CAN_MATCH) vreach(); }
 		vreach();
 	}
 	else
 	{
 		vassert(needDecrypt && decryptFails ? true : (rv == CKR_GENERAL_ERROR || rv == CKR_HOST_MEMORY || rv == CKR_ARGUMENTS_BAD));
 		vassert(s->operation == SESSION_OP_NONE);                          // C12: a failed C_FindObjectsInit leaves no operation behind
-		vreach();
+		if (SHAPE_DECRYPTS) vreach();
 	}
 	vreach();
 }
